@@ -773,7 +773,9 @@ class World:
 
     def __init__(self, plugins=None, registry=None, tag="w"):
         _counter[0] += 1
-        self.root = os.path.join(SCRATCH_BASE, "verif-%d-%s%d" % (os.getpid(), tag, _counter[0]))
+        # fixed width: the length of the path reaches the event log through
+        # the byte counts of messages that mention it
+        self.root = os.path.join(SCRATCH_BASE, "verif-%08d-%s%06d" % (os.getpid(), tag[:1], _counter[0]))
         if os.path.exists(self.root):
             shutil.rmtree(self.root)
         _o.makedirs(self.root)
@@ -922,9 +924,10 @@ class World:
             fs.active = False
             sys.argv, sys.stdout, sys.stderr = saved
         res.crashed = fs.ev.crashed
-        res.stdout = out.value()
-        res.stdout_delivered = out.delivered_value()
-        res.stderr = err.getvalue()
+        # the scratch path is process specific: never let it reach oracles, logs or digests
+        res.stdout = self.scrub(out.value())
+        res.stdout_delivered = self.scrub(out.delivered_value())
+        res.stderr = self.scrub(err.getvalue())
         res.events = fs.ev.log
         res.fired = fs.ev.fired
         res.mutations = list(fs.mutations)
